@@ -201,7 +201,47 @@ func deref(p value) value {
 	panic(unsupported{fmt.Sprintf("deref %s", describe(p))})
 }
 
+// == / != on structs and arrays: field-wise
+func compositeEq(a, b []value) value {
+	var r value = true
+	for i := range a {
+		e := binop(token.EQL, a[i], b[i], nil)
+		if eb, ok := e.(bool); ok {
+			if !eb {
+				return false
+			}
+			continue
+		}
+		if rb, ok := r.(bool); ok && rb {
+			r = e
+			continue
+		}
+		r = boolVal(mkAnd(asBool(r), asBool(e)))
+	}
+	return r
+}
+
 func binop(op token.Token, a, b value, t types.Type) value {
+	if op == token.EQL || op == token.NEQ {
+		var x, y []value
+		switch av := a.(type) {
+		case structure:
+			if bv, ok := b.(structure); ok && len(av) == len(bv) {
+				x, y = av, bv
+			}
+		case array:
+			if bv, ok := b.(array); ok && len(av) == len(bv) {
+				x, y = av, bv
+			}
+		}
+		if x != nil {
+			r := compositeEq(x, y)
+			if op == token.NEQ {
+				return notVal(r)
+			}
+			return r
+		}
+	}
 	if ta, ok := a.(*tab); ok {
 		if tb, ok2 := b.(*tab); ok2 && ta.v != tb.v {
 			if r := twoVar(op, ta, tb, false); r != nil {
